@@ -454,7 +454,7 @@ func (ex *Exec) fieldAddr(st *State, x Value, styp types.Type, field int) Value 
 			return TV{ex.subObject(key, p.T)}
 		}
 		if ex.prog.Pre.AddrTaken[key] {
-			return Loc{Key: MemKey(ex.tm.SortOf(ft)), Idx: ex.subObject(key, p.T), Sort: ex.tm.SortOf(ft)}
+			return Loc{Key: ex.tm.MemKey(ft), Idx: ex.subObject(key, p.T), Sort: ex.tm.SortOf(ft)}
 		}
 		return Loc{Key: key, Idx: p.T, Sort: ex.tm.SortOf(ft)}
 	case Unknown:
@@ -499,7 +499,7 @@ func (ex *Exec) load(st *State, addr Value, typ types.Type) Value {
 			return TV{ex.loadStruct(st, p.T, typ, stt)}
 		}
 		s := ex.tm.SortOf(typ)
-		arr := ex.heapGet(st, MemKey(s), SArray(SInt, s))
+		arr := ex.heapGet(st, ex.tm.MemKey(typ), SArray(SInt, s))
 		t := ex.ts.Select(arr, p.T)
 		ex.assumeRange(st.PC, t, typ)
 		if isPointerLike(typ) {
@@ -560,8 +560,8 @@ func (ex *Exec) store(st *State, addr Value, typ types.Type, v Value) {
 			ex.note("store of %T through opaque pointer", v)
 			tv = TV{ex.ts.Fresh("opaque", s)}
 		}
-		arr := ex.heapGet(st, MemKey(s), SArray(SInt, s))
-		ex.heapSet(st, MemKey(s), ex.ts.Store(arr, p.T, tv.T))
+		arr := ex.heapGet(st, ex.tm.MemKey(typ), SArray(SInt, s))
+		ex.heapSet(st, ex.tm.MemKey(typ), ex.ts.Store(arr, p.T, tv.T))
 	case Unknown:
 		ex.note("store through unknown pointer: %s", p.Why)
 	default:
@@ -724,8 +724,15 @@ func (ex *Exec) runFunc(fn *ssa.Function, args []Value, bind []Value, st *State,
 				continue
 			}
 			if es, ok := fr.edge[[2]int{p.Index, b.Index}]; ok && es != nil {
-				in = append(in, es)
-				delete(fr.edge, [2]int{p.Index, b.Index})
+				dup := false
+				for _, x := range in {
+					if x == es {
+						dup = true
+					}
+				}
+				if !dup {
+					in = append(in, es)
+				}
 			}
 		}
 		if fn.Recover != nil && b == fn.Recover {
@@ -740,6 +747,9 @@ func (ex *Exec) runFunc(fn *ssa.Function, args []Value, bind []Value, st *State,
 			if _, ok := b.Instrs[0].(*ssa.Phi); ok {
 				phiVals = ex.evalPhis(fr, b, back)
 			}
+		}
+		for _, p := range b.Preds {
+			delete(fr.edge, [2]int{p.Index, b.Index})
 		}
 		cur := ex.mergeStates(in)
 		if cur.PC.IsFalse() {
